@@ -9,6 +9,8 @@ def all_units(raw=False):
     names = [u.name for u in out]
     assert len(names) == len(set(names)), "duplicate unit names"
     assert all(u.replay for u in out), "a unit without native replay families has nothing to fall back on when it is undecided"
+    fams = set(f[:-4] for f in os.listdir(os.path.join(os.path.dirname(here), 'replay')) if f.endswith('.cpp'))
+    assert all(f in fams for u in out for f in u.replay), "a unit names a replay family that does not exist"
     if not raw:
         # a unit is also run under every property that one of its obligations' labels names (tools/label_index.py)
         try: idx = json.load(open(os.path.join(here, 'label_index.json')))
